@@ -126,6 +126,12 @@ func handleMsgUpdateServiceBinding(ctx sdk.Context, k keeper.Keeper, msg *types.
 }
 
 func handleMsgSetWithdrawAddress(ctx sdk.Context, k keeper.Keeper, msg *types.MsgSetWithdrawAddress) (*sdk.Result, error) {
+	// earned fees are paid out of the module: its own accounts cannot be withdrawal addresses
+	if msg.WithdrawAddress.Equals(k.GetServiceRequestAccount(ctx).GetAddress()) ||
+		msg.WithdrawAddress.Equals(k.GetServiceDepositAccount(ctx).GetAddress()) {
+		return nil, sdkerrors.Wrap(sdkerrors.ErrInvalidAddress, "withdrawal address must not be a service module account")
+	}
+
 	k.SetWithdrawAddress(ctx, msg.Owner, msg.WithdrawAddress)
 
 	ctx.EventManager().EmitEvents(sdk.Events{
